@@ -177,7 +177,12 @@ func (r *RectBounder) AddPoint(b Point) {
 		// be spent getting from A to B; the remainder bounds the round-trip
 		// distance (in latitude) from A or B to the min or max latitude
 		// attained along the edge AB.
-		latBudget := 2 * math.Asin(0.5*(r.a.Sub(b.Vector)).Norm()*math.Sin(maxLat))
+		// The argument of Asin carries a relative rounding error of a few
+		// epsilon. When it is close to 1 (nearly antipodal endpoints on a great
+		// circle that passes near a pole) Asin turns that into an absolute error
+		// of the order of sqrt(epsilon), about 1e-8 radians, so round the
+		// argument up to keep the budget, and with it the bound, conservative.
+		latBudget := 2 * math.Asin(math.Min(1, 0.5*(r.a.Sub(b.Vector)).Norm()*math.Sin(maxLat)*(1+4*dblEpsilon)))
 		maxDelta := 0.5*(latBudget-latAB.Length()) + dblEpsilon
 
 		// Test whether AB passes through the point of maximum latitude or
